@@ -26,8 +26,8 @@
 //   L.live_bytes_of(owner), L.allocs_since_arm(), L.counters() (events by kind)
 //   L.violations()                       ledger violations observed so far
 //                                        (unknown pointer / size mismatch /
-//                                        double free; foreign owner only when
-//                                        L.check_owner is set); such a
+//                                        double free / foreign owner: released
+//                                        through a handle of another arena); such a
 //                                        block is NOT forwarded to free, it is
 //                                        quarantined until reset()
 //   L.abandon(owner)                     drop (and release) every live block of an
@@ -79,9 +79,10 @@ public:
 	};
 
 	std::function<void(const Event &)> on_event;
-	// off by default: a block released through a handle with another owner tag
-	// is then only bookkeeping noise, not a violation
-	bool check_owner = false;
+	// Every handle is its own arena: a block must be released through a handle that
+	// compares equal to the one it was obtained from (same owner tag). A table that takes over
+	// another table's storage has to take over its allocator with it.
+	bool check_owner = true;
 
 	Ledger() {}
 	~Ledger() { reset(); }
@@ -283,9 +284,10 @@ public:
 	}
 };
 
-// All SimAlloc handles draw from the current ledger, so any two are
-// interchangeable for deallocation (the owner tag is bookkeeping only).
-template <class A, class B> inline bool operator==(const SimAlloc<A> &, const SimAlloc<B> &) noexcept { return true; }
-template <class A, class B> inline bool operator!=(const SimAlloc<A> &, const SimAlloc<B> &) noexcept { return false; }
+// Handles with different owner tags are different arenas (stateful, unequal allocators): storage obtained
+// from one may only be returned through an equal one. The ledger reports a release through an unequal
+// handle as "foreign-owner".
+template <class A, class B> inline bool operator==(const SimAlloc<A> &a, const SimAlloc<B> &b) noexcept { return a.owner == b.owner; }
+template <class A, class B> inline bool operator!=(const SimAlloc<A> &a, const SimAlloc<B> &b) noexcept { return a.owner != b.owner; }
 
 } // namespace psv
